@@ -95,9 +95,9 @@ func (c *fakeChain) BestBlockNode() *blockchain.BlockNode {
 	defer c.mu.Unlock()
 	return c.best
 }
-func (c *fakeChain) BestBlockHash() *wire.Hash  { return c.BestBlockNode().Hash }
-func (c *fakeChain) BestBlockHeight() uint64    { return c.BestBlockNode().Height }
-func (c *fakeChain) ChainID() *wire.Hash        { h := wire.Hash{0xc0, 0x08}; return &h }
+func (c *fakeChain) BestBlockHash() *wire.Hash { return c.BestBlockNode().Hash }
+func (c *fakeChain) BestBlockHeight() uint64   { return c.BestBlockNode().Height }
+func (c *fakeChain) ChainID() *wire.Hash       { h := wire.Hash{0xc0, 0x08}; return &h }
 func parentNode(r *round) *blockchain.BlockNode {
 	h := r.Prev
 	return &blockchain.BlockNode{Hash: &h, Height: r.Height - 1, CapSum: big.NewInt(1000), Timestamp: r.T0.Add(-poc.PoCSlot * time.Second), Quality: big.NewInt(1000)}
